@@ -179,6 +179,24 @@ def parseCopy (toks : List String) : Option (List Nat × List CTree) :=
       pure (acc.1, acc.2 ++ [{ id := ← id.toNat?, kids := ← natList kids, data := ← natList data }])
     | _ => none) ([], [])
 
+/-- the snapshot tree below `id` as a term (fuel = number of trees + 1 bounds the depth) -/
+def buildS (m : List CTree) : Nat → Nat → Option STree
+  | 0, _ => none
+  | fuel + 1, id =>
+    match m.find? (·.id == id) with
+    | none => none
+    | some t => (t.kids.mapM (buildS m fuel)).map (fun ks => .node id t.data ks)
+
+def everyOther {α : Type} : List α → List α
+  | a :: _ :: rest => a :: everyOther rest
+  | l => l
+
+/-- destinations holding arbitrary subsets of the blobs (what `H:lose` / `H:prune` histories leave behind on the real side): the
+complete destination, only the root trees, every tree but no chunk, the roots and every chunk but no sub-tree, every other blob -/
+def partialDests (full : Dest) (roots : List Nat) : List Dest :=
+  [full, ⟨roots, []⟩, ⟨full.trees, []⟩, ⟨roots, full.data⟩, ⟨everyOther full.trees, everyOther (full.data.drop 1)⟩,
+   ⟨roots ++ everyOther (full.trees.drop 1), everyOther full.data⟩]
+
 def handle : List String → String
   | op :: rest =>
     let model := rest.takeWhile (· ≠ "|")
@@ -225,7 +243,13 @@ def handle : List String → String
       | some (roots, reach) =>
         let d1 := copyStep { trees := [], data := [] } roots reach
         let d2 := copyStep d1 roots reach
-        s!"copied restore={if destComplete d1 roots reach && destComplete d2 roots reach then "ok" else "bad"}"
+        -- the whole run (`copyRun`: walk from ALL roots) into destinations that already hold part of the blobs
+        match roots.mapM (buildS reach (reach.length + 1)) with
+        | none => "bad-op"
+        | some snaps =>
+          let full := copyRun { trees := [], data := [] } snaps
+          let okPartial := (partialDests full roots).all (fun p => snaps.all (fun s => s.present (copyRun p snaps)))
+          s!"copied restore={if destComplete d1 roots reach && destComplete d2 roots reach && okPartial then "ok" else "bad"}"
     else "bad-op"
   | _ => "bad-op"
 
